@@ -92,10 +92,34 @@ def post_markup(V):
                                      'value': v + ' (tainted)', 'got': str(got)[:200]})
 
 
+def post_wrappers(V):
+    """results of the string helper wrappers (DT_Util.StringModuleWrapper) computed from an untrusted argument are untrusted
+    too: inserted as the direct result of an expression they are escaped"""
+    from AccessControl.tainted import TaintedString
+    from DocumentTemplate.DT_HTML import HTML
+    from DocumentTemplate.DT_String import String
+    from DocumentTemplate.DT_Util import StringModuleWrapper
+    S = StringModuleWrapper()
+    for call in ('S.capwords(x)', 'S.capwords(s=x)', "S.capwords('a b', x)", 'S.capwords(x, None)'):
+        for tail in ('', ' upper', ' size=40', ' html_quote', ' url_unquote spacify', ' fmt="[%s]" null=n'):
+            for cls, src in ((HTML, '<dtml-var expr="%s"%s>' % (call, tail)), (String, '%%(var expr="%s"%s)s' % (call, tail)),
+                             (HTML, '<dtml-let y="%s"><dtml-var y%s></dtml-let>' % (call, tail))):
+                for v in ('<Q>alert(1)</Q> hi there', 'two <Q words'):
+                    V.count('renderings')
+                    try:
+                        got = str(cls(src)(x=TaintedString(v), S=S))
+                    except Exception:  # noqa
+                        continue
+                    if '<Q' in got or '<q' in got:
+                        V.violation({'kind': 'departure', 'clause': 'raw-lt', 'cls': 'string-wrapper', 'source': src,
+                                     'value': v + ' (tainted)', 'got': got[:200]})
+
+
 def main(tier):
     def both(V):
         post(V)
         post_markup(V)
+        post_wrappers(V)
     return vc.run(PID, tier, sweeps(tier), classify, post=both,
                   invs=['NoRawLT', 'OnceNotTwice', 'NoRawSpecial', 'TruncBound'],
                   assumptions=['a tainted value is a TaintedString containing "<" (the property\'s definition)',
